@@ -556,11 +556,15 @@ async fn xchg_send(stype: &str, sock: Option<&mut AnySock>, raws: &mut Vec<Optio
     // a send may legitimately fail once per peer that has left (the failure is how the socket learns): retry
     let mut sent = false;
     let mut last = "fail:timeout".to_string();
-    for _ in 0..4 {
+    for _ in 0..12 {
         let f = sock.send(zmsg(vec![tag.to_vec()])).unwrap();
         match tokio::time::timeout(Duration::from_secs(2), f).await {
             Err(_) => return "fail:timeout".to_string(),
-            Ok(Err(e)) => last = format!("fail:{}", zeromq::__verif::error_class(&e)),
+            Ok(Err(e)) => {
+                // (the accept side registers a peer a little after the raw client has seen the library's READY)
+                last = format!("fail:{}", zeromq::__verif::error_class(&e));
+                tokio::time::sleep(Duration::from_millis(50)).await;
+            }
             Ok(Ok(())) => {
                 sent = true;
                 break;
